@@ -7,8 +7,9 @@ re-entrancy is the call `resource.resolve(self)` (a factory resolving its own de
 That call is described by the *resolution guarantee* `resolution_frame` below, which is
   - assumed at the call (contract on the protocol method `ResourceDescriptor.resolve`),
   - PROVED for `_get` itself (normal and exceptional exits), for `get#with1` (the body of get's exclusive section)
-    and for the factory-backed descriptor of the repository (`_Resource.resolve` / `call` / `_resolve_dependencies`),
-so the assumed instances are `_ResourceConfig.resolve` (no manager in reach) and user-written descriptor classes.  The exclusivity itself (who may be inside, the
+    and for both descriptor implementations of the repository (`_Resource.resolve` / `call` / `_resolve_dependencies`,
+    `_ResourceConfig.resolve`),
+so the only assumed instance is a user-written descriptor class.  The exclusivity itself (who may be inside, the
 lock, the call sites) is decided on the AST by propchecks/C22.py and replayed by scenarios/resource_scenario.py.
 """
 from pyvc.dsl import *  # noqa
@@ -28,6 +29,14 @@ PLAIN_CLASSES = {
     "ResourceDescriptor": [
         ("name", "str"),
         ("cache", "bool"),
+    ],
+    "_ResourceConfig": [
+        ("_original_config_file", "str"),
+        ("_resolved_config_file", "str | None"),
+        ("path_selector", "str | None"),
+        ("cls_factory", "opaque:ModelClass | None"),
+        ("label", "str | None"),
+        ("description", "str | None"),
     ],
     "_Resource": [
         ("_factory", "opaque:Factory"),
@@ -91,9 +100,9 @@ class DescriptorResolve:
     trusted = True
     modifies = ["manager"]
     raises = ["*user", "CancelledError"]
-    notes = ("the protocol method: ASSUMED for user-written descriptor classes and _ResourceConfig.resolve, PROVED for "
-             "the repository's factory-backed descriptor (_Resource.resolve: contract ResourceResolve below) - a "
-             "descriptor resolves its own dependencies only through manager.get, whose effect is the resolution guarantee")
+    notes = ("the protocol method: ASSUMED for user-written descriptor classes, PROVED for the repository's two "
+             "descriptors (contracts ResourceResolve and ResourceConfigResolve below) - a descriptor resolves its own "
+             "dependencies only through manager.get, whose effect is the resolution guarantee")
 
     def requires(self, manager):
         return manager._resolution_depth >= 1
@@ -382,6 +391,38 @@ class ResourceResolve:
     modifies = ["manager"]
     raises = ["ValueError", "*user", "CancelledError"]
     notes = "the protocol method's clauses (DescriptorResolve), proved for the repository's factory-backed descriptor"
+
+    def requires(self, manager):
+        return manager._resolution_depth >= 1
+
+    def ensures_resolution_guarantee(old, self, manager, result):
+        return resolution_frame(old.manager, manager)
+
+    def raised_any_resolution_guarantee(old, self, manager):
+        return resolution_frame(old.manager, manager)
+
+
+@contract("workflows.resource._ResourceConfig.call")
+class ResourceConfigCall:
+    properties = ["C22"]
+    trusted = True
+    raises = ["*user", "ValueError"]
+    ret_type = "Any"
+    notes = "assumed: reads the JSON file and validates it into the annotated pydantic class; no manager in reach"
+
+    def requires(self):
+        return True
+
+    def ensures_nothing(old, self, result):
+        return True
+
+
+@contract("workflows.resource._ResourceConfig.resolve")
+class ResourceConfigResolve:
+    properties = ["C22"]
+    raises = ["*user", "ValueError"]
+    notes = ("the protocol method's clauses (DescriptorResolve), proved for the repository's config-backed descriptor: it "
+             "never touches the manager (frame obligation: `manager` is not in `modifies`)")
 
     def requires(self, manager):
         return manager._resolution_depth >= 1
